@@ -10,8 +10,10 @@ RULE = ("per seed a pool of shapes built to contain every pattern (nested, hole-
         "general position (or nested without contact), curved contents whose control polygon leaves the container while the curve stays inside (parabola cap in a rectangle, few-arc circle in a tight square; closed-form truth), plus simple shapes whose boundaries touch without crossing (shared vertex, vertex on an edge, shared part of an edge; bounded/unbounded): `B in A`, A.contains_shape(B), the corollaries A in A, "
         "B in A => A|B == A and A&B == B; contains_jordan with both flags for curves against shapes; exact subset "
         "oracle by slab sampling; non-trivial = bounding boxes overlap and neither is Empty/Whole; distinct = SHA-1")
-PROOF_STATUS = ("Props/C03.v: Empty/Whole rows, composition rules for Connected/Disjoint containers and contents; "
-                "simple-in-simple subset soundness is the oracle's (partial); F10, F11 repaired")
+PROOF_STATUS = ("Props/C03.v: Empty/Whole rows, composition rules for Connected/Disjoint containers and contents; curve-in-shape "
+                "(the heart of `B in A`) is SOUND and COMPLETE for polygons: in general position `J in A` holds iff every point of "
+                "J is inside or on A (C03_curve_in_shape_iff), lifted to all container kinds; the area/orientation case analysis of "
+                "simple-in-simple on top of it is the oracle's (partial); F10, F11, F22 repaired")
 
 
 def _scale(s, k, v):
